@@ -40,7 +40,7 @@ use std::sync::Arc;
 use vf_kit::engine::*;
 
 use crate::c30::fail_result;
-use crate::walk::{self, Program, Purpose, Walk, WalkCase, WalkNode, concat, fmt_value, lex_violation, row_keys};
+use crate::walk::{self, Finding, Judged, Program, Purpose, Walk, WalkCase, WalkNode, concat, fmt_value, lex_violation, row_keys};
 
 pub struct C28;
 
@@ -379,12 +379,26 @@ pub fn check_node(n: &WalkNode, f: &mut Facts) -> Result<(), String> {
     Ok(())
 }
 
-pub fn check(w: &Walk) -> Result<Facts, String> {
+/// all violated claims (at most one per node), classified against the open known findings
+pub fn check(w: &Walk) -> (Facts, Vec<Finding>) {
     let mut f = Facts::default();
+    let mut findings = vec![];
     for n in &w.nodes {
-        check_node(n, &mut f)?;
+        if let Err(msg) = check_node(n, &mut f) {
+            let probe = walk::probe_plan(&n.plan);
+            let sig = if n.name == "AggregateExec" && n.display.contains("lim=[") && msg.contains("declares the ordering") || n.name == "AggregateExec" && n.display.contains("lim=[") && msg.contains("declares output_ordering()") {
+                // known finding: a TopK-limited aggregate keeps declaring the ordering derived from its sorted input
+                Some("topk-aggregate-keeps-input-ordering".to_string())
+            } else if probe.outer_join_padded_constant && (msg.contains(" constant") || msg.contains("equivalence class") || msg.contains("declares the ordering") || msg.contains("declares output_ordering()")) {
+                // known finding: constants of the NULL-padded side survive an outer join (and orderings derived from them)
+                Some("outer-join-constant-of-null-padded-side".to_string())
+            } else {
+                None
+            };
+            findings.push(Finding { sig, msg });
+        }
     }
-    Ok(f)
+    (f, findings)
 }
 
 impl Property for C28 {
@@ -415,24 +429,30 @@ impl Property for C28 {
             "PhysicalExpr::evaluate of a declared sort/equivalence expression on the node's own output computes that expression".into(),
         ]
     }
-    fn run(&self, case: &WalkCase) -> CaseResult {
-        let w = match walk::walk(case) {
-            Ok(w) => w,
-            Err(e) => return fail_result(e),
-        };
-        let labels = walk::plan_labels(case, &w);
-        match check(&w) {
-            Err(m) => CaseResult::violation(format!("{m}{}\n  plan:\n{}", case.describe(), w.plan_text)).labels(labels),
-            Ok(f) => {
-                let mut r = CaseResult::pass().nontrivial(f.nontrivial).labels(labels).labels(f.labels);
-                if w.nodes.iter().any(|n| n.parts.is_err()) {
-                    r = r.label("node-runtime-error");
-                }
-                if let Program::Tmpl(t) = &case.program {
-                    r = r.labels(t.features());
-                }
-                r
-            }
-        }
+    fn known_signature(&self, case: &WalkCase) -> Option<String> {
+        walk::judged_signature("c28", case, || judge(case))
     }
+    fn run(&self, case: &WalkCase) -> CaseResult {
+        walk::judged_result("c28", case, || judge(case))
+    }
+}
+
+fn judge(case: &WalkCase) -> Judged {
+    let w = match walk::walk(case) {
+        Ok(w) => w,
+        Err(e) => return Judged::clean(fail_result(e)),
+    };
+    let labels = walk::plan_labels(case, &w);
+    let (f, mut findings) = check(&w);
+    for x in &mut findings {
+        x.msg = format!("{}{}\n  plan:\n{}", x.msg, case.describe(), w.plan_text);
+    }
+    let mut r = CaseResult::pass().nontrivial(f.nontrivial).labels(labels).labels(f.labels);
+    if w.nodes.iter().any(|n| n.parts.is_err()) {
+        r = r.label("node-runtime-error");
+    }
+    if let Program::Tmpl(t) = &case.program {
+        r = r.labels(t.features());
+    }
+    Judged { findings, result: r }
 }
